@@ -11,6 +11,7 @@ import (
 	"go/token"
 	"go/types"
 	"regexp"
+	"strconv"
 	"strings"
 )
 
@@ -21,6 +22,29 @@ var protocolFns = []string{
 	"rebalancing.(SmartRebalancer).Start",
 	"rebalancing.(SmartRebalancer).Stop",
 	"rebalancing.(SmartRebalancer).monitorLoop",
+	// tree-level wrappers around the IncrementalRebalancer (system (c) of Model/Lifecycle.v)
+	"structures.(WritableBTreeV2).EnableIncrementalRebalancing",
+	"structures.(WritableBTreeV2).StopIncrementalRebalancing",
+	"structures.(WritableBTreeV2).IsIncrementalRebalancingEnabled",
+	"structures.(WritableBTreeV2).GetIncrementalRebalancingProgress",
+}
+
+// Fields whose READS are part of the protocol as well (the writes of every anchored field already are):
+// the pointer the tree-level wrappers hand over between their critical sections.  A local variable
+// assigned from such a field becomes an alias "#n" (n = order of definition), so that renaming it does not
+// change the skeleton, and a method call whose receiver is the field or an alias carries "@receiver".
+var trackedFields = map[string]bool{
+	"WritableBTreeV2.incrementalRebalancer": true,
+}
+
+// Functions in which an `if` without else whose body contributes nothing to the skeleton and whose condition
+// calls nothing is dropped (parameter defaulting and the like): only the tree-level wrappers, the golden
+// skeletons of the Start/Stop/loop functions keep their historical form.
+var pruneEmptyIfs = map[string]bool{
+	"structures.(WritableBTreeV2).EnableIncrementalRebalancing":      true,
+	"structures.(WritableBTreeV2).StopIncrementalRebalancing":        true,
+	"structures.(WritableBTreeV2).IsIncrementalRebalancingEnabled":   true,
+	"structures.(WritableBTreeV2).GetIncrementalRebalancingProgress": true,
 }
 
 type skel struct {
@@ -29,10 +53,15 @@ type skel struct {
 	info *types.Info
 	out  []string
 	re   *regexp.Regexp
+	// aliases of tracked fields: local variable -> "#n"
+	alias   map[types.Object]string
+	aliasRe []*regexp.Regexp
+	aliasTo []string
+	prune   bool
 }
 
 func (a *analyzer) skeleton(f *fn) []string {
-	s := &skel{a: a, f: f, info: f.pkg.TypesInfo}
+	s := &skel{a: a, f: f, info: f.pkg.TypesInfo, alias: map[types.Object]string{}, prune: pruneEmptyIfs[f.key]}
 	if f.recvName != "" {
 		s.re = regexp.MustCompile(`\b` + regexp.QuoteMeta(f.recvName) + `\b`)
 	}
@@ -45,7 +74,61 @@ func (s *skel) norm(e ast.Expr) string {
 	if s.re != nil {
 		str = s.re.ReplaceAllString(str, "$")
 	}
+	for i, re := range s.aliasRe {
+		str = re.ReplaceAllString(str, s.aliasTo[i])
+	}
 	return str
+}
+
+// trackedLoc: e is a selector of a tracked field -> its location name.
+func (s *skel) trackedLoc(e ast.Expr) (string, bool) {
+	if p, ok := e.(*ast.ParenExpr); ok {
+		return s.trackedLoc(p.X)
+	}
+	sel, ok := e.(*ast.SelectorExpr)
+	if !ok {
+		return "", false
+	}
+	if loc, _, ok := s.a.targetField(s.info, sel); ok && trackedFields[loc] {
+		return loc, true
+	}
+	return "", false
+}
+
+func (s *skel) objOf(id *ast.Ident) types.Object {
+	if o := s.info.Defs[id]; o != nil {
+		return o
+	}
+	return s.info.Uses[id]
+}
+
+// isTrackedRef: e is a tracked field or a local alias of one.
+func (s *skel) isTrackedRef(e ast.Expr) bool {
+	if _, ok := s.trackedLoc(e); ok {
+		return true
+	}
+	if id, ok := e.(*ast.Ident); ok {
+		if o := s.objOf(id); o != nil {
+			_, is := s.alias[o]
+			return is
+		}
+	}
+	return false
+}
+
+func (s *skel) addAlias(id *ast.Ident) string {
+	o := s.objOf(id)
+	if o == nil || id.Name == "_" {
+		return ""
+	}
+	if n, ok := s.alias[o]; ok {
+		return n
+	}
+	n := "#" + strconv.Itoa(len(s.alias)+1)
+	s.alias[o] = n
+	s.aliasRe = append(s.aliasRe, regexp.MustCompile(`\b`+regexp.QuoteMeta(id.Name)+`\b`))
+	s.aliasTo = append(s.aliasTo, n)
+	return n
 }
 
 func (s *skel) emit(t string) { s.out = append(s.out, t) }
@@ -82,6 +165,9 @@ func (s *skel) callToken(c *ast.CallExpr) string {
 		if sl, ok := s.info.Selections[sel]; ok {
 			if sl.Kind() == types.MethodVal {
 				if fo, ok := sl.Obj().(*types.Func); ok && fo.Pkg() != nil && strings.HasPrefix(fo.Pkg().Path(), modPath) {
+					if s.isTrackedRef(sel.X) {
+						return "call:" + funcObjKey(fo) + "@" + s.norm(sel.X)
+					}
 					return "call:" + funcObjKey(fo)
 				}
 				if fo, ok := sl.Obj().(*types.Func); ok && fo.Name() == "Done" {
@@ -118,6 +204,10 @@ func (s *skel) exprTokens(e ast.Expr) {
 			if t := s.callToken(x); t != "" {
 				s.emit(t)
 			}
+		case *ast.SelectorExpr:
+			if loc, ok := s.trackedLoc(x); ok {
+				s.emit("read:" + loc)
+			}
 		}
 		return true
 	})
@@ -141,10 +231,22 @@ func (s *skel) stmt(st ast.Stmt) {
 	case *ast.ExprStmt:
 		s.exprTokens(x.X)
 	case *ast.AssignStmt:
-		for _, r := range x.Rhs {
+		for i, r := range x.Rhs {
+			if loc, ok := s.trackedLoc(r); ok && len(x.Lhs) == len(x.Rhs) {
+				if id, isId := x.Lhs[i].(*ast.Ident); isId {
+					if n := s.addAlias(id); n != "" {
+						s.emit("read:" + loc + "->" + n)
+						continue
+					}
+				}
+			}
 			s.exprTokens(r)
 		}
-		for _, l := range x.Lhs {
+		for i, l := range x.Lhs {
+			if loc, ok := s.trackedLoc(l); ok && len(x.Lhs) == len(x.Rhs) {
+				s.emit("write:" + loc + "=" + s.valueClass(x.Rhs[i]))
+				continue
+			}
 			s.anchoredWrite(l)
 		}
 	case *ast.IncDecStmt:
@@ -178,11 +280,17 @@ func (s *skel) stmt(st ast.Stmt) {
 	case *ast.LabeledStmt:
 		s.stmt(x.Stmt)
 	case *ast.IfStmt:
+		before := len(s.out)
 		if x.Init != nil {
 			s.stmt(x.Init)
 		}
 		s.emit("if[" + s.norm(x.Cond) + "]{")
+		inner := len(s.out)
 		s.block(x.Body.List)
+		if s.prune && x.Else == nil && len(s.out) == inner && inner == before+1 && !hasCall(x.Cond) {
+			s.out = s.out[:before]
+			return
+		}
 		if x.Else != nil {
 			s.emit("}else{")
 			s.stmt(x.Else)
@@ -232,6 +340,45 @@ func (s *skel) stmt(st ast.Stmt) {
 			}
 		}
 	}
+}
+
+// valueClass: what is stored into a tracked field: nil, a new object, a tracked reference, or "?".
+func (s *skel) valueClass(e ast.Expr) string {
+	switch x := e.(type) {
+	case *ast.ParenExpr:
+		return s.valueClass(x.X)
+	case *ast.Ident:
+		if x.Name == "nil" {
+			if _, isNil := s.info.Uses[x].(*types.Nil); isNil {
+				return "nil"
+			}
+		}
+	case *ast.UnaryExpr:
+		if _, ok := x.X.(*ast.CompositeLit); ok && x.Op == token.AND {
+			return "new"
+		}
+	case *ast.CompositeLit:
+		return "new"
+	}
+	if s.isTrackedRef(e) {
+		return s.norm(e)
+	}
+	return "?"
+}
+
+// hasCall: the expression calls something other than the builtins len / cap.
+func hasCall(e ast.Expr) bool {
+	found := false
+	ast.Inspect(e, func(n ast.Node) bool {
+		if c, ok := n.(*ast.CallExpr); ok {
+			if id, isId := c.Fun.(*ast.Ident); isId && (id.Name == "len" || id.Name == "cap") {
+				return true
+			}
+			found = true
+		}
+		return !found
+	})
+	return found
 }
 
 func (a *analyzer) protocols() map[string][]string {
